@@ -60,7 +60,7 @@ def prime():
 @st.composite
 def base_case(draw, tier, data_kind=None, depths=vs.DEPTHS_STREAM, min_chans=1, subrange=True):
     mx = 60 if tier == "quick" else 160
-    lay = draw(vs.layout(depths=depths, max_samples=mx, min_samples=2, max_files=2, max_chans=16,
+    lay = draw(vs.layout(depths=depths, max_samples=mx, min_samples=2, max_files=3, max_chans=16,
                          max_chan_units=2, min_chans=min_chans))
     if data_kind is not None:
         lay["data_kind"] = data_kind
